@@ -707,8 +707,13 @@ func (mc *Machine) ActFailedRestore(t *rapid.T, mirrors ...*column.Collection) {
 	w.Close()
 	cut := small.Len() * rapid.IntRange(5, 98).Draw(t, "cut-percent") / 100
 	data := small.Bytes()[:cut]
+	// The expected state comes from a PROBE collection that restores the same bytes: the machine's
+	// own collection must not run any transaction (not even a read-only one) before the first
+	// generated transaction - whatever a failed Restore leaves in pooled objects is for that one.
+	probe := newCollectionLive(mc.Sch, mc.M.ColLive, column.Options{})
+	defer probe.Close()
 	outcome := ""
-	for i, c := range append([]*column.Collection{mc.C}, mirrors...) {
+	for i, c := range append([]*column.Collection{probe, mc.C}, mirrors...) {
 		rerr, bad := guarded(func() error { return c.Restore(bytes.NewReader(data)) })
 		if bad != "" {
 			mc.fail(t, "Restore of a truncated snapshot (%d of %d bytes): %s", cut, small.Len(), bad)
@@ -717,7 +722,7 @@ func (mc *Machine) ActFailedRestore(t *rapid.T, mirrors ...*column.Collection) {
 			outcome = fmt.Sprint(rerr)
 		}
 	}
-	got, _, xerr := extractRange(mc.C, mc.Sch, mc.M.ColLive, false)
+	got, _, xerr := extractRange(probe, mc.Sch, mc.M.ColLive, false)
 	if xerr != nil {
 		mc.fail(t, "reading the collection after the failed Restore: %v", xerr)
 	}
